@@ -1,10 +1,161 @@
 /-
-  Drive/Convert.lean — driver suite `convert` (stub; to be implemented).
+  Drive/Convert.lean — driver suite `convert` (C17): runs the model of `convert_dict` on a case
+  (document, history, split points), the `Versioned` glue, and evaluates the executable laws of
+  Spec/ConvertSpec.lean on what the real code returned (`impl`).
+
+  Wire format (trusted glue):
+    JSON value : null | bool | int | string | [values…] | {"o": [[key, value], …]}   (objects keep their order)
+    mapping    : [[key, entry], …] in `mapping.items()` order; entry =
+                 {"const": value} | {"del": 1} | {"move": "a.b"} | {"fn": name, "args": [keys…]|null}
+                 | {"sub": mapping}   (the key on the wire is "<field>._mapper"; the suffix is stripped here)
+    result     : {"ok": value} | {"err": "TypeError" | "AttributeError"}
 -/
 import TypedpyModel.Drive.Wire
+import TypedpyModel.Spec.ConvertSpec
 namespace Typedpy.Drive.Convert
 open Lean (Json)
+open Typedpy.Convert hiding Json
 
-def run (_j : Json) : Except String Json := .error "suite convert not implemented"
+abbrev J := Typedpy.Convert.Json
+
+partial def docOfJson (j : Json) : Except String J :=
+  match j with
+  | .null => pure .null
+  | .bool b => pure (.bool b)
+  | .num _ => do pure (.int (← j.getInt?))
+  | .str s => pure (.str s)
+  | .arr a => do pure (.list (← a.toList.mapM docOfJson))
+  | .obj _ => do
+    let kvs ← (← (← j.getObjVal? "o").getArr?).toList.mapM fun kv => do
+      let p ← kv.getArr?
+      if p.size != 2 then throw "object entry"
+      pure ((← p[0]!.getStr?), (← docOfJson p[1]!))
+    pure (.obj kvs)
+
+partial def docToJson : J → Json
+  | .null => .null
+  | .bool b => .bool b
+  | .int i => Json.num (Lean.JsonNumber.fromInt i)
+  | .str s => .str s
+  | .list xs => Json.arr (xs.map docToJson).toArray
+  | .obj kvs => Json.mkObj [("o", Json.arr (kvs.map fun (k, v) => Json.arr #[.str k, docToJson v]).toArray)]
+
+def fnOfName : String → Except String FnName
+  | "ident" => pure .ident
+  | "addOne" => pure .addOne
+  | "upper" => pure .upper
+  | "wrap" => pure .wrap
+  | "concat" => pure .concat
+  | "pair" => pure .pair
+  | s => throw s!"unknown function {s}"
+
+def mapperSuffix : String := "._mapper"
+
+partial def mappingOfJson (j : Json) : Except String Mapping := do
+  (← j.getArr?).toList.mapM fun kv => do
+    let p ← kv.getArr?
+    if p.size != 2 then throw "mapping entry"
+    let k ← p[0]!.getStr?
+    let e := p[1]!
+    if let .ok x := e.getObjVal? "const" then return (k, Entry.const (← docOfJson x))
+    if let .ok _ := e.getObjVal? "del" then return (k, Entry.deleted)
+    if let .ok x := e.getObjVal? "move" then return (k, Entry.move (splitPath (← x.getStr?)))
+    if let .ok x := e.getObjVal? "fn" then
+      let args ← match Typedpy.Wire.optField e "args" with
+        | none => pure []
+        | some a => (← a.getArr?).toList.mapM (·.getStr?)
+      return (k, Entry.fn (← fnOfName (← x.getStr?)) args)
+    if let .ok x := e.getObjVal? "sub" then
+      if !k.endsWith mapperSuffix then throw s!"sub entry key without ._mapper: {k}"
+      return ((k.dropEnd mapperSuffix.length).toString, Entry.sub (← mappingOfJson x))
+    throw s!"mapping entry {e.compress}"
+
+def errName : Err → String
+  | .typeErr => "TypeError"
+  | .attrErr => "AttributeError"
+
+def resToJson : R J → Json
+  | .ok v => Json.mkObj [("ok", docToJson v)]
+  | .error e => Json.mkObj [("err", .str (errName e))]
+
+/-- decode a result of the real code; `none` when it raised a class the model does not have -/
+def resOfJson (j : Json) : Except String (Option (R J)) := do
+  if let .ok x := j.getObjVal? "ok" then return some (.ok (← docOfJson x))
+  match (← j.getObjVal? "err").getStr? with
+  | .ok "TypeError" => pure (some (.error .typeErr))
+  | .ok "AttributeError" => pure (some (.error .attrErr))
+  | _ => pure none
+
+def optInt (o : Option Int) : Json :=
+  match o with | none => .null | some i => Json.num (Lean.JsonNumber.fromInt i)
+
+def optBool (o : Option Bool) : Json :=
+  match o with | none => .null | some b => .bool b
+
+def run (j : Json) : Except String Json := do
+  let doc ← docOfJson (← j.getObjVal? "doc")
+  let ms ← (← (← j.getObjVal? "ms").getArr?).toList.mapM mappingOfJson
+  let splits ← (← (← j.getObjVal? "splits").getArr?).toList.mapM (·.getNat?)
+  let hasAttr := match j.getObjVal? "hasAttr" with | .ok (.bool b) => b | _ => true
+  let full := convertDict doc ms
+  let stages := splits.map fun k =>
+    let s1 := convertDict doc (ms.take k)
+    let s2 := match s1 with | .ok d1 => convertDict d1 ms | .error e => .error e
+    Json.mkObj [("k", Json.num (Lean.JsonNumber.fromNat k)), ("s1", resToJson s1), ("s2", resToJson s2)]
+  let again := match full with | .ok r => convertDict r ms | .error e => .error e
+  let msOpt := if hasAttr then some ms else none
+  let deserIn := deserVersioned id msOpt doc
+  let kw ← match Typedpy.Wire.optField j "kw" with
+    | none => pure []
+    | some x => do match (← docOfJson x) with | .obj kvs => pure kvs | _ => throw "kw"
+  let initV := match get "version" (versionedInitKw msOpt kw) with
+    | some (.int i) => some i | _ => none
+  let upg := match docVersion doc with
+    | some v => if 1 ≤ v then some (sameResult (upgrade ms ms.length doc) full) else none
+    | none => none
+  -- single-step contract (Spec) on consecutive prefix states: state k -> state k+1 is one application of ms[k]
+  let startV := effectiveVersion doc
+  let stepCheck (state : Nat → Option J) : Json :=
+    Json.arr ((List.range ms.length).map fun k =>
+      match startV, ms[k]?, state k, state (k + 1) with
+      | some v, some m, some b, some a =>
+        if 1 ≤ v && v ≤ (k : Int) + 1 then Json.arr ((stepViolationsTop m b a).map Lean.Json.str).toArray else .null
+      | _, _, _, _ => .null).toArray
+  let modelState (k : Nat) : Option J := match convertDict doc (ms.take k) with | .ok d => some d | .error _ => none
+  let base := [
+    ("modelSteps", stepCheck modelState),
+    ("full", resToJson full), ("stages", Json.arr stages.toArray), ("again", resToJson again),
+    ("wf", .bool (wfHistory ms)), ("inDomain", .bool (inDomain ms doc)),
+    ("docVersion", optInt (docVersion doc)), ("effVersion", optInt (effectiveVersion doc)),
+    ("hasVersionKey", .bool (hasVersionKey doc)),
+    ("deserIn", resToJson deserIn), ("initVersion", optInt initV), ("upgradeAgrees", optBool upg)]
+  -- laws evaluated on what the real code returned (documents arrive with sorted keys)
+  let laws ← match Typedpy.Wire.optField j "impl" with
+    | none => pure []
+    | some im => do
+      let ifull ← resOfJson (← im.getObjVal? "full")
+      let vlaw := match ifull with
+        | some (.ok r) => some (versionLaw ms r)
+        | _ => none
+      let istages ← (← (← im.getObjVal? "stages").getArr?).toList.mapM fun st => do
+        let s1 ← resOfJson (← st.getObjVal? "s1")
+        let s2 ← resOfJson (← st.getObjVal? "s2")
+        pure (match s1, s2, ifull with
+          | some (.ok _), some r2, some rf => some (sameResult r2 rf)
+          | some (.error e), _, some rf => some (sameResult (.error e) rf)
+          | _, _, _ => none)
+      let iagain ← resOfJson (← im.getObjVal? "again")
+      let idem := match ifull, iagain with
+        | some (.ok r), some ra => some (sameResult ra (.ok r))
+        | _, _ => none
+      let implStates ← (← (← im.getObjVal? "stages").getArr?).toList.mapM fun st => do
+        match (← resOfJson (← st.getObjVal? "s1")) with
+        | some (.ok d) => pure (some d)
+        | _ => pure none
+      let implState (k : Nat) : Option J := (implStates[k]?).join
+      pure [("implSteps", stepCheck implState),
+            ("implLaws", Json.mkObj [("version", optBool vlaw),
+              ("compose", Json.arr (istages.map optBool).toArray), ("idempotent", optBool idem)])]
+  pure (Json.mkObj (base ++ laws))
 
 end Typedpy.Drive.Convert
